@@ -99,7 +99,7 @@ def sw_cases(draw, tier):
     pad = draw(st.sampled_from([0, 0, 1, 2, 3]))
     stride = draw(st.integers(1, 5))
     data = draw(seqs(max(1, width - 2 * pad), 40 if big else 24))
-    sample_kind = draw(st.sampled_from(["none", "int", "pair", "list", "perm", "repeats"]))
+    sample_kind = draw(st.sampled_from(["none", "int", "pair", "list", "perm", "repeats", "perm_fixed_ends", "repeats_fixed_ends"]))
     if sample_kind == "none":
         sample, positions = None, list(range(width))
     elif sample_kind == "int":
@@ -119,7 +119,17 @@ def sw_cases(draw, tier):
             sample = None
         else:
             sample = list(positions)
+    elif sample_kind in ("perm_fixed_ends", "repeats_fixed_ends") and width >= 4:
+        # full-width index lists that keep both end points but permute / repeat interior positions
+        inner = list(range(1, width - 1))
+        if sample_kind == "perm_fixed_ends":
+            mid = list(draw(st.permutations(inner)))
+        else:
+            mid = draw(st.lists(st.sampled_from(inner), min_size=len(inner), max_size=len(inner)))
+        positions = [0] + mid + [width - 1]
+        sample = list(positions)
     else:
+        sample_kind = "repeats"
         positions = draw(st.lists(st.integers(0, width - 1), min_size=width, max_size=width + 2).filter(lambda l: len(l) != 2))
         sample = list(positions)
     n_cols = len(positions)
